@@ -415,6 +415,14 @@ func (self *linkedPairs) Swap(i, j int) {
 
 func (self *linkedPairs) Sort() {
 	sort.Stable(self)
+	if self.index != nil {
+		// Swap re-points the index entry of a duplicated key at whichever pair moved
+		// last; rebuild it so that the first occurrence wins again, like the linear search
+		for h := range self.index {
+			delete(self.index, h)
+		}
+		self.BuildIndex()
+	}
 }
 
 // Compare two strings from the pos d.
